@@ -380,7 +380,7 @@ def c17(tier):
     # Spec B with the Rerun action: C17 clauses model-checked, behaviours replayed into the real conductor
     run.add_mc((F.curated()[:16] if tier == "quick" else F.curated() + F.curated_retry()[:4] + F.random_family(3500 + s, 150, nmax=4)),
                ["C17"], max_rerun=1, max_steps=18, replay=True)
-    defs = F.curated() + F.random_family(2400 + s, sizes(tier, 20, 500), nmax=4, publish=True)
+    defs = F.curated() + F.random_family(2400 + s, sizes(tier, 40, 500), nmax=4, publish=True)
     env = {"rerun": 1, "rerun_tasks": True, "max_nodes": sizes(tier, 1200, 10000)}
     run.add_jobs(jobs_for(defs, env, s, ("yaql", "jinja")))
     run.add_jobs(jobs_for(F.curated_items() + F.curated_retry() + F.fault_family(("undef",), ("when", "publish", "output")),
